@@ -37,7 +37,11 @@ assert sum(len(v) for v in T6502.values()) == 151
 
 
 def it(line, want, sig, **kw):
-    d = {'line': '\t' + line, 'want': want if want == 'ERR' else bytes(want).hex(), 'sig': sig}
+    if want != 'ERR' and want and isinstance(want[0], list):
+        enc = [bytes(x).hex() for x in want]        # several encodings the instruction set offers for the same operation
+    else:
+        enc = want if want == 'ERR' else bytes(want).hex()
+    d = {'line': '\t' + line, 'want': enc, 'sig': sig}
     d.update(kw)
     return d
 
@@ -537,6 +541,12 @@ def forms_msp430():
             for tgt in (BASE - 0x100, BASE, BASE + 2, BASE + 3, BASE + 4, BASE + 6, BASE + 0x200):
                 code = w(op << 12 | 0 << 8 | 1 << 7 | bw << 6 | 1 << 4 | 0) + w((tgt - (BASE + 2)) & 0xffff) + w((tgt - (BASE + 4)) & 0xffff)
                 yield it('org %d\n\t%s%s %d' % (BASE, mn, suf, tgt), code, S + 'EMU/' + mn.upper() + '/sym', at=BASE)
+            for tgt in (BASE + 0x8002, BASE + 0x8003, BASE + 0x8004, (BASE - 0x7ffe) & 0xffff):     # displacements around the sign change: addresses wrap at 64K
+                code = w(op << 12 | 0 << 8 | 1 << 7 | bw << 6 | 1 << 4 | 0) + w((tgt - (BASE + 2)) & 0xffff) + w((tgt - (BASE + 4)) & 0xffff)
+                yield it('org %d\n\t%s%s %d' % (BASE, mn, suf, tgt & 0xffff), code, S + 'EMU/' + mn.upper() + '/sym-wrap', at=BASE)
+            for a in (0, 2, 0x200, 0xfffe):
+                yield it('%s%s &%d' % (mn, suf, a), w(op << 12 | 2 << 8 | 1 << 7 | bw << 6 | 1 << 4 | 2) + w(a) + w(a), S + 'EMU/' + mn.upper() + '/abs')
+            yield it('%s%s 0(r9)' % (mn, suf), [w(op << 12 | 9 << 8 | 1 << 7 | bw << 6 | 2 << 4 | 9) + w(0), w(op << 12 | 9 << 8 | 1 << 7 | bw << 6 | 1 << 4 | 9) + w(0) + w(0)], S + 'EMU/' + mn.upper() + '/idx0')
             yield it('%s%s 6(r9)' % (mn, suf), w(op << 12 | 9 << 8 | 1 << 7 | bw << 6 | 1 << 4 | 9) + w(6) + w(6), S + 'EMU/' + mn.upper() + '/idx')
             yield it('%s%s &544' % (mn, suf), w(op << 12 | 2 << 8 | 1 << 7 | bw << 6 | 1 << 4 | 2) + w(544) + w(544), S + 'EMU/' + mn.upper() + '/abs')
 
